@@ -77,6 +77,7 @@ func (t *tr) declareView5(a *absParam, ty types.Type, ps string, path []string, 
 	}
 	cur := ty
 	proj := -2 // static length of the projected array (-2: no projection)
+	var pkg *types.Package
 	for i, comp := range path {
 		if p, ok := cur.(*types.Pointer); ok && !(i == len(path)-1 && (comp == "isNil" || comp == "load")) {
 			cur = p.Elem()
@@ -111,7 +112,6 @@ func (t *tr) declareView5(a *absParam, ty types.Type, ps string, path []string, 
 		}
 		isProj := strings.HasSuffix(comp, "[]")
 		field := strings.TrimSuffix(comp, "[]")
-		var pkg *types.Package
 		if n, ok := cur.(*types.Named); ok {
 			pkg = n.Obj().Pkg()
 		}
